@@ -128,6 +128,15 @@ class Scanner(Interp):
             if not isinstance(lo, int) or not isinstance(hi, int):
                 raise AnalysisError('generate_bufr_message slices the stream at a non-concrete position')
             return Obj('Span', {'start': lo, 'stop': min(hi, base.length), 'open_end': idx[2] is None})
+        if isinstance(base, Obj) and base.cls == 'Span' and isinstance(idx, tuple) and idx[0] == 'slice':
+            # a slice of a slice: positions relative to the first one
+            n = base.fields['stop'] - base.fields['start']
+            lo = 0 if idx[1] is None else idx[1]
+            hi = n if idx[2] is None else idx[2]
+            if not isinstance(lo, int) or not isinstance(hi, int) or lo < 0 or hi < 0 or idx[3] is not None:
+                raise AnalysisError('generate_bufr_message slices a part of the stream at a position the stream model cannot follow (%r)' % (idx[1:],))
+            return Obj('Span', {'start': base.fields['start'] + min(lo, n), 'stop': base.fields['start'] + min(hi, n),
+                                'open_end': idx[2] is None and base.fields.get('open_end', False)})
         return self.NOT_HANDLED
 
     def on_call(self, text, callee, args, kwargs, node, frame):
@@ -139,6 +148,16 @@ class Scanner(Interp):
             m = args[0]
             self.event('filter', m.fields['__start'], m.fields['__mode'])
             return self.msgs[m.fields['__start']].matched
+        if recv_cls == 'Span' and callee.name == 'find':
+            # a search inside a slice of the stream: the answer is relative to the slice
+            span, sig = callee.recv, args[0]
+            frm = args[1] if len(args) > 1 else 0
+            if not isinstance(frm, int) or frm < 0:
+                raise AnalysisError('generate_bufr_message searches a part of the stream from a non-concrete position %r' % (frm,))
+            p = self.stream.call_method('find', [sig, span.fields['start'] + frm], {}, self, frame, node)
+            if not isinstance(p, int) or p < 0 or p + 4 > span.fields['stop']:
+                return -1
+            return p - span.fields['start']
         if text == 'decoder.process' or (recv_cls == 'DecoderStub' and callee.name == 'process'):
             span = args[0]
             info_only = kwargs.get('info_only', False)
@@ -146,8 +165,15 @@ class Scanner(Interp):
                 self.event('decode_arg', repr(span))
                 raise Raise('BitReadError', node, self.where(node, frame))
             st = span.fields['start']
+            if 'start_signature' not in kwargs and len(args) < 3:
+                # Decoder.process with its default start signature skips to the first signature of its input by itself
+                nxt = [p for p in self.stream.sigs if st <= p and p + 4 <= span.fields['stop']]
+                if not nxt:
+                    self.event('decode_arg', 'no signature in the input')
+                    raise Raise(LIB, node, self.where(node, frame))
+                st = min(nxt)
             avail = span.fields['stop'] - st
-            self.event('decode', st, 'info' if info_only else 'full', kwargs.get('start_signature', 'DEFAULT'))
+            self.event('decode', st, 'info' if info_only else 'full', kwargs.get('start_signature', 'DEFAULT'), getattr(self.stream, 'last_found', None))
             mgr = callee.recv.fields.get('compiled_template_manager') if isinstance(callee, UnknownMethod) and isinstance(callee.recv, Obj) else None
             if isinstance(mgr, Obj):
                 # what the decoder's compiled-template cache holds when this decode starts (C20.R2)
@@ -327,9 +353,11 @@ def rule_r1(repo, tier='quick'):
                 # no decode may be anchored anywhere but at a found signature, and never with a start signature search
                 dec = [e for e in r.events if e[0] == 'decode']
                 for e in dec:
-                    if e[3] is not None:
-                        rr.fail(key + ':anchor', fi.where, '%s: decoder.process is called with start_signature=%r; the scanner must decode exactly at the position it '
-                                'found' % (name, e[3]))
+                    # (whether the decoder is told not to search - start_signature=None - or is handed input that begins with the
+                    # signature makes no difference; what counts is where the decoding starts)
+                    if len(e) > 4 and e[4] is not None and e[4] >= 0 and e[1] != e[4]:
+                        rr.fail(key + ':anchor', fi.where, '%s: the scanner found a start signature at %s and the decoder starts decoding at %s; the scanner must decode '
+                                'exactly at the position it found' % (name, e[4], e[1]))
                 bad = [e for e in r.events if e[0] == 'decode_arg']
                 if bad:
                     rr.fail(key + ':slice', fi.where, '%s: the decoder is given %s instead of the rest of the stream from the found signature' % (name, bad[0][1]))
